@@ -62,9 +62,16 @@ class ExcSpec(object):
                    # subclasses of the dedicated errors keep their status
                    'sub_too_long', 'sub_not_found', 'sub_not_allowed',
                    'sub_invalid_creds', 'respawn']
+    # a Fault whose payload the output protocol may be unable to represent:
+    # only "no crash, a well-formed fault, no leak" is asserted for these
+    KINDS_AWKWARD = ['fault_awkward']
     KINDS_NONFAULT = ['key_error', 'os_error', 'zero_div', 'custom',
                       'type_error']
-    KINDS = KINDS_FAULT + KINDS_NONFAULT
+    KINDS = KINDS_FAULT + KINDS_NONFAULT + KINDS_AWKWARD
+    AWKWARD = ['key-space', 'key-int', 'leaf-ctl', 'list', 'list-dicts',
+               'bytes-msg', 'set', 'bigint', 'none-leaf', 'obj-leaf',
+               'detail-str', 'detail-list', 'key-empty', 'msg-ctl-only',
+               'deep']
 
     @staticmethod
     def draw(rng, kind, seed):
@@ -77,6 +84,10 @@ class ExcSpec(object):
             d['code'] = rng.choice(_OPEN_CODES)
         elif kind == 'fault_sub':
             d['code'] = rng.choice(_CLIENT_CODES + _SERVER_CODES)
+        if kind == 'fault_awkward':
+            d['code'] = rng.choice(_CLIENT_CODES + _SERVER_CODES)
+            d['variant'] = rng.choice(ExcSpec.AWKWARD)
+            d['msg'] = u'awkward'
         if kind in ('fault_client', 'fault_server', 'fault_open', 'fault_sub'):
             d['msg'] = rng.choice(_MSGS)
             d['detail'] = rng.choice(_DETAILS)
@@ -89,11 +100,45 @@ class ExcSpec(object):
 
     @staticmethod
     def is_fault(d):
-        return d['kind'] in ExcSpec.KINDS_FAULT
+        return d['kind'] in ExcSpec.KINDS_FAULT or \
+                                        d['kind'] in ExcSpec.KINDS_AWKWARD
+
+    @staticmethod
+    def is_awkward(d):
+        return d['kind'] in ExcSpec.KINDS_AWKWARD
+
+    @staticmethod
+    def awkward_payload(variant):
+        deep = cur = {}
+        for i in range(40):
+            cur['n%d' % i] = {}
+            cur = cur['n%d' % i]
+        cur['leaf'] = 'x'
+        return {
+            'key-space': dict(detail={'a b': 'x'}),
+            'key-int': dict(detail={1: 'x'}),
+            'key-empty': dict(detail={'': 'x'}),
+            'leaf-ctl': dict(detail={'a': u'x\x01y'}),
+            'list': dict(detail={'a': ['x', 'y']}),
+            'list-dicts': dict(detail={'a': [{'b': '1'}, {'b': '2'}]}),
+            'bytes-msg': dict(msg=b'bytes msg'),
+            'msg-ctl-only': dict(msg=u'\x00\x01'),
+            'set': dict(detail={'a': set([1, 2])}),
+            'bigint': dict(detail={'a': 2 ** 70}),
+            'none-leaf': dict(detail={'a': None}),
+            'obj-leaf': dict(detail={'a': object()}),
+            'detail-str': dict(detail='just a string'),
+            'detail-list': dict(detail=['x']),
+            'deep': dict(detail=deep),
+        }[variant]
 
     @staticmethod
     def make(d):
         k = d['kind']
+        if k == 'fault_awkward':
+            pl = ExcSpec.awkward_payload(d['variant'])
+            return Fault(d['code'], pl.get('msg', d['msg']),
+                                                   detail=pl.get('detail'))
         if k in ('fault_client', 'fault_server', 'fault_open'):
             return Fault(d['code'], d['msg'], detail=d.get('detail'))
         if k == 'fault_sub':
@@ -133,6 +178,8 @@ class ExcSpec(object):
     def expected(d):
         """(code, string, detail) the client must see for this exception."""
         k = d['kind']
+        if k == 'fault_awkward':
+            return (d['code'], d['msg'], None)
         if k in ('fault_client', 'fault_server', 'fault_open', 'fault_sub'):
             return (d['code'], d['msg'], d.get('detail'))
         if k in ('too_long', 'sub_too_long'):
